@@ -172,7 +172,7 @@ theorem chkSubtype_leaf {W : Colls} {T : Types} (s : AggState) (hc : CInv W T s.
     (ha : at_.unfoldKind (checkFuel at_ bt) a = some ta) (hb : bt.unfoldKind (checkFuel at_ bt) b = some tb)
     (hnda : ta.namesDistinct = true) (hndb : tb.namesDistinct = true) :
     ∃ r c', chkSubtype at_ a bt b s = .ok (r, { s with chk := c' }) ∧ (r = .ok ↔ subNames ta tb = true) ∧
-      CInv W T c'.cache := by
+      (∀ m, r ≠ .panic m) ∧ CInv W T c'.cache := by
   have hspec := check_iff_subNames' (collsWith W T hc.fresh) (checkFuel at_ bt) s.chk at_ bt a b ta tb hat hbt
     hc.sound ha hb hnda hndb
   obtain ⟨hiff, hnp, hms, _⟩ := hspec
@@ -201,7 +201,7 @@ theorem chkSubtype_leaf {W : Colls} {T : Types} (s : AggState) (hc : CInv W T s.
         rcases he with rfl | he
         · exact ⟨key_ok at_ a _ ta hat la ha, key_ok bt b _ tb hbt lb hb⟩
         · exact hc.keys e he
-    refine ⟨r, c', ?_, hiff, hcinv⟩
+    refine ⟨r, c', ?_, hiff, hnp, hcinv⟩
     rw [run_chkSubtype, hr]
     cases r with
     | ok => rfl
